@@ -62,6 +62,9 @@ extern "C" void k_hull()
   // (drawn before the first path split: every path shares the same input variables)
 #if VF_XMODE == 1
   for (int k = 0; k < N; k++) draw_[k] = vf_range(0, N - 1 - k);
+#ifdef VF_L0
+  draw_[0] = VF_L0; // first value of the permutation fixed per kernel (splits the n = 5 family into 5 kernels)
+#endif
 #else
   for (int k = 0; k < N; k++) draw_[k] = vf_range(0, VF_XB - 1);
 #endif
